@@ -46,7 +46,7 @@ func init() {
 		Phases: func(tier universe.Tier) []*harness.Phase {
 			ff := flatten(codecFamilies(tier))
 			return []*harness.Phase{{
-				Name: "roundtrip",
+				Name: "roundtrip", Weight: 8,
 				Rule: "every struct type of the families single-field over T3 x shells, boundary ids, two-field (thorough: three-field) x every value of the per-type alphabet (full product or <=2 deviations from the base value); an outcome is distinct by (type index, canonical encoded bytes); all are non-trivial (each is a different program/input pair)",
 				Body: func(c *explore.C) { c01Body(c, ff, tier) },
 			}}
@@ -114,7 +114,7 @@ func init() {
 		Phases: func(tier universe.Tier) []*harness.Phase {
 			ff := flatten(codecFamilies(tier))
 			return []*harness.Phase{{
-				Name: "wire",
+				Name: "wire", Weight: 8,
 				Rule: "same type x value space as C01 (complete 9x14 map matrix, all list/set element kinds, containers of containers); distinct by (type index, canonical bytes)",
 				Body: func(c *explore.C) { c02Body(c, ff, tier) },
 			}}
@@ -128,7 +128,7 @@ func init() {
 		Phases: func(tier universe.Tier) []*harness.Phase {
 			ff := flatten(codecFamilies(tier))
 			return []*harness.Phase{{
-				Name: "size-buffer",
+				Name: "size-buffer", Weight: 8,
 				Rule: "C01 type x value space, each value passed as *T and T, x buffer lengths {0..size} (size<=64) or {0,1,size-1,powers of two} plus {size,size+1,size+7}; distinct by (type index, canonical bytes)",
 				Body: func(c *explore.C) { c04Body(c, ff, tier) },
 			}}
@@ -142,7 +142,7 @@ func init() {
 		Phases: func(tier universe.Tier) []*harness.Phase {
 			ff := flatten(append(codecFamilies(tier), nocopyFamily()))
 			return []*harness.Phase{{
-				Name: "side-effects",
+				Name: "side-effects", Weight: 8,
 				Rule: "C01 type x value space plus nocopy string/binary types; values built with spare slice capacity holding live sentinel elements; distinct by (type index, canonical bytes)",
 				Body: func(c *explore.C) { c16Body(c, ff, tier) },
 			}, {
